@@ -107,7 +107,7 @@ impl Ev {
     }
     /// Keep up to 4 samples per worker.
     pub fn sample<T: Serialize>(&mut self, f: impl FnOnce() -> T) {
-        if !self.frozen && self.samples.len() < 4 {
+        if !self.frozen && self.samples.iter().filter(|s| s.get("generated_case").is_none()).count() < 4 {
             let v = serde_json::to_value(f()).unwrap_or(Value::Null);
             self.samples.push(truncate_json(v));
         }
@@ -119,7 +119,9 @@ impl Ev {
             *self.labels.entry(k).or_default() += v;
         }
         for s in o.samples {
-            if self.samples.len() < 6 {
+            let structured = s.get("generated_case").is_some();
+            let have_structured = self.samples.iter().filter(|x| x.get("generated_case").is_some()).count();
+            if (structured && have_structured < 3) || (!structured && self.samples.len() - have_structured < 5) {
                 self.samples.push(s);
             }
         }
@@ -337,6 +339,10 @@ impl Run {
         };
         let res = runner.run(&strat, |v| {
             let mut e = ev.borrow_mut();
+            // the first generated case of every worker goes into the evidence as it is
+            if w < 2 && !e.frozen && !e.samples.iter().any(|s| s.get("generated_case").is_some()) {
+                e.samples.push(json!({"check": check, "generated_case": truncate_json(serde_json::to_value(&v).unwrap_or(Value::Null))}));
+            }
             match judge(&v, &mut e) {
                 Ok(()) => Ok(()),
                 Err(f) => {
